@@ -12,7 +12,6 @@ RULE = ("(format, assignment, spelling): for small formats (<= 2 options, <= 2 a
         "lenient; seeded random for larger formats (up to 5 options / 4 arguments / 2 command names, base formats). The expected "
         "Args observation is computed from the assignment alone. Non-trivial = >= 1 option item and >= 1 positional; distinct by "
         "(format, mode, tokens)")
-THEOREMS = ["parse_spells", "parse_spells_stage1", "parse_spells_stage2", "parse_spells_not_vacuous", "spelling_parses", "spelled_options_marked_set", "unspelled_option_default", "spelled_single_option", "spelled_multi_option", "spelled_argument_set", "spelled_argument_value", "access_agrees_*", "unset_*_reports_default", "tail_is_never_read_as_options", "spelled_lines_mode_independent"]
 TRUSTED = ["the expected observation is computed by an independent Python function from the assignment (oracle)"]
 ASSUMPTIONS = ["lines satisfy the side conditions of DESIGN.md C01 (separated values and pre-'--' positionals do not start with '-' and are "
                "not empty, an omitted optional value is not followed by a positional, an omitted command name is not followed by a "
